@@ -130,7 +130,10 @@ def clamps(F, R):
             bare = re.sub(r'core::f64::<impl f64>::max\(q, const effect::eq_filter::MIN_Q\)', 'QMAX', d)
             R.check('QMAX' in bare and not re.search(r'(?<![A-Za-z0-9_:])q(?![A-Za-z0-9_])', bare), 'B.C13.clamp', 'eq:1/q#%d' % i,
                     'EQ divides by %s: q does not pass max(MIN_Q)' % d[:160], detail={'divisor': d[:160]})
-    R.floor('B.C13.clamp', n, 8)
+    # fail closed per kind of site (the three EQ kinds may share one tan() / one divisor after a tidy-up)
+    kinds = set(k.split('|')[-1].split('#')[0] for k in R.keys('B.C13.clamp'))
+    for want in ('filter:tan', 'filter:k', 'eq:tan', 'eq:1/q'):
+        R.check(want in kinds, 'B.C13.clamp', 'anchor-kind:' + want, 'no %s site recognised (fail closed)' % want)
 
 
 def zero_div(F, R):
